@@ -196,6 +196,10 @@ def must_refuse(sh, places_before, m, a):
     st = sh.states[-1]
     if st in ('finished', 'drawn'):
         return 'competition finished or drawn'
+    if st == 'jumpoff' and sh.jo_participants is not None and not sh.jo_participants and not sh.irregular and not sh.degenerate \
+            and sh.jo_start is not None and len(sh.heights) > sh.jo_start:
+        # everybody who was still in the jump-off has retired or been knocked out: there is nobody left to jump or to set a bar for
+        return 'nobody left in the jump-off'
     if m == 'add_jumper':
         if sh.heights:
             return 'athletes join only before the first bar height'
@@ -1039,6 +1043,11 @@ class Explorer(object):
             if bar <= 0 or not self.apply(c, 'set_bar_height', bar):
                 break
             parts = list(sh.jo_participants or [])
+            if not parts and probe_outsiders and c.state == 'jumpoff' and not sh.irregular:
+                # the rule book says nobody is left, the competition still says jump-off: whoever tries now must be refused
+                for b in list(sh.bibs):
+                    self.apply(c, rnd.choice(['cleared', 'failed', 'retired']), b)
+                break
             if passes and sh.jo_pass:
                 # after a pass inside the jump-off the rule book no longer says who is in: ask the competition itself
                 parts = [j.bib for j in c.remaining]
@@ -1055,8 +1064,10 @@ class Explorer(object):
                 elif r < 0.75:
                     k = rnd.randrange(1, len(parts))
                     marks = ['failed'] * k + ['cleared'] * (len(parts) - k)
-                elif r < 0.92:
+                elif r < 0.86:
                     marks = ['failed'] * len(parts)
+                elif r < 0.93:
+                    marks = ['retired'] * len(parts)         # everybody still in gives up: drawn among them
                 else:
                     marks = [rnd.choice(['retired', 'failed']) for _ in parts]
                 for b, m in zip(parts, marks):
